@@ -17,7 +17,7 @@ RULE = (
     "dispose. Non-trivial: the subject terminated by an error or by a completion with a value while >=1 observer was "
     "subscribed AND a subscriber arrived after termination. "
     "A third check (falsy_error, run last) repeats short histories in which on_error is given a valid exception object whose "
-    "truth value is False (it defines __len__ == 0). det (Engine DET, vlib/det.py: line-level yield points, cooperative locks, subject created after patching): thread A subject.subscribe(recorder) || thread B a fixed list of 1-3 emitting calls, 0/1 observer subscribed beforehand, either thread scheduled first; every schedule with <=1 (quick) / <=2 (thorough) preemptions is run; oracle = linearizability against the same sequential model: the racing subscriber's list must equal the model's list for SOME position of its subscribe in the emitter's call sequence (so its first notification is the value current at registration and nothing earlier follows), earlier subscribers see the sequential outcome, no deadlock/exception; non-trivial = calls overlapped and >=2 distinct outcomes observed. raising: histories whose observers are plain except one whose k-th handler raises; checked afterwards: observers served before "
+    "truth value is False (it defines __len__ == 0). det (Engine DET, vlib/det.py: line-level yield points, cooperative locks, subject created after patching): thread A subject.subscribe(recorder) || thread B a fixed list of 1-3 emitting calls, 0/1 observer subscribed beforehand, either thread scheduled first; every schedule with <=1 (quick) / <=2 (thorough) preemptions is run; oracle = linearizability against the same sequential model: the racing subscriber's list must equal the model's list for SOME position of its subscribe in the emitter's call sequence (so its first notification is the value current at registration and nothing earlier follows), earlier subscribers see the sequential outcome, no deadlock/exception; the racing call may also be dispose() on a live / completed / errored subject (allowed: the outcome of subscribing before it, or DisposedException raised or routed to on_error with nothing else); non-trivial = calls overlapped and >=2 distinct outcomes observed. raising: histories whose observers are plain except one whose k-th handler raises; checked afterwards: observers served before "
     "it, every later notification to every subscribed observer, terminal / current value for later subscribers; left open: "
     "re-raise to the caller, the rest of that one delivery, the raiser itself; non-trivial there = a notification was delivered in a "
     "later command than the raise. Histories also terminate through the public "
@@ -56,6 +56,9 @@ _DET_PROGRAMS = [({}, [['next', 'none'], ['completed']]), ({}, [['next', 'i0'], 
 
 _DET_PROGRAMS_THOROUGH = [({}, [["next", "i0"], ["next", "none"], ["next", "f0"], ["completed"]]), ({}, [["next", "s"], ["next", "i1"]])]
 
+# dispose() from another thread racing the subscribe: (cfg, racing calls, calls made before the race)
+_DET_DISPOSE_PROGRAMS = [({}, [["dispose"]], [["next", "i0"], ["error", "e1"]]), ({}, [["dispose"]], [["next", "i0"], ["completed"]]), ({}, [["dispose"]], [["completed"]])]
+
 
 def _det_cases(tier):
     K = 1 if tier == "quick" else 2
@@ -64,6 +67,9 @@ def _det_cases(tier):
         for pre in ((0, 1) if tier == "quick" else (0, 1, 2)):
             for first in ("sub", "emit"):
                 yield {"kind": "async", "cfg": cfg, "emits": emits, "pre": pre, "first": first, "K": K}
+    for cfg, emits, before in _DET_DISPOSE_PROGRAMS:
+        for first in ("sub", "emit"):
+            yield {"kind": "async", "cfg": cfg, "emits": emits, "before": before, "pre": 1, "first": first, "K": K}
 
 
 def checks(tier):
